@@ -621,6 +621,32 @@ fn op_helper(fnname: &str, src_hex: bool, data: &[u8], a: &[Vec<u8>]) -> Out {
                 m.decrypt(ctx, &a[1], |c, d| Ok(record2(c, d).unwrap().into_bytes()));
             format!("ok {}", String::from_utf8(r.unwrap()).unwrap())
         }
+        "countersig.tbs" => {
+            // Sig_structure for the k-th counter-signature found in the protected (else unprotected) header of a
+            // decoded COSE_Sign1: context CounterSignature, body = the message's protected header, sign = the
+            // counter-signature's protected header
+            let m = msg!(CoseSign1);
+            need(3)?;
+            let k = which_of(&a[0]);
+            let cs = if !m.protected.header.counter_signatures.is_empty() {
+                &m.protected.header.counter_signatures
+            } else {
+                &m.unprotected.counter_signatures
+            };
+            if k >= cs.len() {
+                return Ok("nocsig".to_string());
+            }
+            format!(
+                "ok {}",
+                hex(&sig_structure_data(
+                    SignatureContext::CounterSignature,
+                    m.protected.clone(),
+                    Some(cs[k].protected.clone()),
+                    &a[1],
+                    &a[2]
+                ))
+            )
+        }
         _ => return Err("helper fn".to_string()),
     })
 }
@@ -694,7 +720,38 @@ fn run_case(line: &str) -> Out {
         "build" => builders::op_build(ty, &desc_arg(arg(0)?)?),
         "buildrt" => builders::op_buildrt(ty, &desc_arg(arg(0)?)?, !arg(1)?.is_empty(), &args[2..]),
         "canon" => op_canon(ty, arg(0)?),
+        "timedec" => with_ty!(ty, op_timedec, arg(0)?),
         _ => Err("unknown op".into()),
+    }
+}
+
+/// Decoding time relative to plain CBOR parsing of the same bytes (implementation only): `ok <accepted|rejected>`
+/// when typed decoding takes at most 25 times the parse time plus two seconds (best of two runs), `slow ..` otherwise.
+fn op_timedec<T: Ty>(b: &[u8]) -> Out {
+    use std::time::Instant;
+    let mut best_v = f64::MAX;
+    let mut best_t = f64::MAX;
+    let mut accepted = false;
+    for _ in 0..2 {
+        let t0 = Instant::now();
+        let v: Result<Value, _> = coset::cbor::de::from_reader(b);
+        let tv = t0.elapsed().as_secs_f64();
+        drop(v);
+        let t1 = Instant::now();
+        let r = T::dec(b);
+        let tt = t1.elapsed().as_secs_f64();
+        accepted = r.is_ok();
+        // dropping is part of "processing that follows"
+        let t2 = Instant::now();
+        drop(r);
+        let td = t2.elapsed().as_secs_f64();
+        best_v = best_v.min(tv);
+        best_t = best_t.min(tt + td);
+    }
+    if best_t <= 25.0 * best_v + 2.0 {
+        Ok(format!("ok {}", if accepted { "accepted" } else { "rejected" }))
+    } else {
+        Ok(format!("slow typed={:.3}s parse={:.3}s len={}", best_t, best_v, b.len()))
     }
 }
 
